@@ -323,6 +323,19 @@ def run(tier, replay):
             rep = json.load(open(ro))
             if rep["counted"] != rep["expected"]:
                 V.violation("with a reporter rendering interim results the final result counts %d of %d lines" % (rep["counted"], rep["expected"]), rep)
+        # the final report of the client while an interim report is in progress
+        ovf = {"internal/clients/vcommon_test.go": ("common/vcommon_test.go", "clients"), "internal/clients/c06_final_test.go": "clients/c06_final_test.go"}
+        fo = os.path.join(wd, "final.json")
+        rc, out = vlib.go_test(wd, "./internal/clients", ovf, "TestC06FinalReport", env={"VERIF_OUT": fo, "VERIF_N": 300000 if tier == "quick" else 900000}, timeout=900)
+        if rc != 0 or not os.path.exists(fo):
+            raise vlib.Inconclusive("final report harness failed\n" + out[-2500:])
+        fin = json.load(open(fo))
+        if not fin["final_report_returned"]:
+            V.violation("the client's final report did not return within 120 s", fin)
+        elif fin["rows_in_outfile"] != fin["groups"]:
+            V.violation("after the client's final report (made while an interim report was in progress) the outfile holds %d of %d groups" % (fin["rows_in_outfile"], fin["groups"]), fin)
+        if not fin["interim_seen_in_progress"]:
+            V.diverge("final report stage: no interim report was seen in progress (the final report ran alone)")
         # many servers reporting the same groups at the same moment
         mo = os.path.join(wd, "mergestress.json")
         rc, out = vlib.go_test(wd, "./internal/clients/handlers", OVC, "TestC06MergeStress", env={"VERIF_OUT": mo, "VERIF_N": 4000 if tier == "quick" else 60000}, timeout=900)
